@@ -44,10 +44,29 @@ type c06Case struct {
 	OTU   bool    `json:"onetimeuse"`
 	Proxy int     `json:"proxy"`
 	URI   int     `json:"uri"`
+	// Second adds a second assertion whose conditions say the opposite (an audience that
+	// matches every configured URI but the empty one, no OneTimeUse, no ProxyRestriction when
+	// the first has them and vice versa): the warnings are about the FIRST assertion
+	Second bool `json:"second_assertion,omitempty"`
 }
 
 func c06Spec(c c06Case) idp.ResponseSpec {
-	r := idp.DefaultResponse(1)
+	n := 1
+	if c.Second {
+		n = 2
+	}
+	r := idp.DefaultResponse(n)
+	if c.Second {
+		b := &r.Assertions[1]
+		b.Audiences = [][]string{{"https://nobody.example.com/audience"}}
+		if len(c.Restr) > 0 {
+			b.Audiences = nil
+		}
+		b.OneTimeUse = !c.OTU
+		if !c06Proxies[c.Proxy].Present {
+			b.Proxy = &idp.ProxySpec{Count: "7", Audiences: []string{"second"}}
+		}
+	}
 	a := &r.Assertions[0]
 	a.Audiences = nil
 	for _, rs := range c.Restr {
@@ -198,6 +217,9 @@ func c06Docs(maxR int) []c06Case {
 				cp := make([][]int, len(prefix))
 				copy(cp, prefix)
 				docs = append(docs, c06Case{Restr: cp, OTU: otu == 1, Proxy: p})
+				if len(prefix) <= 1 {
+					docs = append(docs, c06Case{Restr: cp, OTU: otu == 1, Proxy: p, Second: true})
+				}
 			}
 		}
 		if depth == maxR {
@@ -216,7 +238,7 @@ func c06Run(r *mc.Run) {
 	if r.Thorough() {
 		maxR = 3
 	}
-	r.Rule = fmt.Sprintf("every sequence of 0..%d AudienceRestrictions, each every ordered list of 0..2 audiences over a 6-value near-miss alphabet (exact, case, trailing slash, leading space, other, empty) x OneTimeUse x 5 ProxyRestriction shapes (full product up to 2 restrictions; at 3 restrictions at most one of OneTimeUse/Proxy deviates) x 3 configured audience URIs (exact, empty, upper-case); non-trivial = accepted genuine response whose warnings were compared; distinct = distinct (document, uri)", maxR)
+	r.Rule = fmt.Sprintf("every sequence of 0..%d AudienceRestrictions, each every ordered list of 0..2 audiences over a 6-value near-miss alphabet (exact, case, trailing slash, leading space, other, empty) x OneTimeUse x 5 ProxyRestriction shapes (full product up to 2 restrictions; at 3 restrictions at most one of OneTimeUse/Proxy deviates) x 3 configured audience URIs (exact, empty, upper-case), plus (up to 1 restriction) a second assertion whose conditions say the opposite; non-trivial = accepted genuine response whose warnings were compared; distinct = distinct (document, uri)", maxR)
 	docs := c06Docs(maxR)
 	r.Set("documents", len(docs))
 	r.State(len(docs))
@@ -246,7 +268,7 @@ func c06Run(r *mc.Run) {
 			r.Transition(1)
 			r.Bucket(class)
 			if class != "REJECTED" {
-				r.Nontrivial(fmt.Sprintf("%v/%v/%d/%d", c.Restr, c.OTU, c.Proxy, u))
+				r.Nontrivial(fmt.Sprintf("%v/%v/%d/%d/%v", c.Restr, c.OTU, c.Proxy, u, c.Second))
 			}
 			if (i*3+u)%7919 == 0 {
 				r.Sample(map[string]interface{}{"case": c, "observed": detail})
